@@ -738,6 +738,17 @@ fn compile_burn_redeemers(
     Ok(redeemers)
 }
 
+// sort key of a reward account (header byte + 28-byte hash) in the ledger's order
+fn reward_account_order(account: &[u8]) -> (u8, u8, &[u8]) {
+    match account.split_first() {
+        Some((header, hash)) if account.len() == 29 => {
+            let script = header & 0xf0 == 0xf0;
+            (header & 0x0f, if script { 0 } else { 1 }, hash)
+        }
+        _ => (u8::MAX, u8::MAX, account),
+    }
+}
+
 fn withdrawal_redeemer_index(
     compiled_body: &primitives::TransactionBody,
     adhoc: &tir::AdHocDirective,
@@ -750,7 +761,10 @@ fn withdrawal_redeemer_index(
         .map(|(cred, _)| cred.as_slice())
         .collect::<Vec<_>>();
 
-    keys.sort();
+    // redeemer pointers count reward accounts in the ledger's order: by network, then by kind of
+    // credential (script hashes before key hashes), then by hash; sorting the raw bytes would
+    // put key accounts (header 0xe.) before script accounts (header 0xf.)
+    keys.sort_by(|a, b| reward_account_order(a).cmp(&reward_account_order(b)));
     keys.dedup();
 
     let credential = adhoc
